@@ -347,6 +347,13 @@ func (g *DocGen) Doc() S {
 		if g.p(0.3) {
 			pathParams = append(pathParams, g.Parameter("query", "plq"))
 		}
+		if pathLevel {
+			// path-level lists of several lengths (the operations below add their own parameters to them at validation time)
+			for k, n := 0, g.R.Intn(5); k < n; k++ {
+				in := []string{"header", "cookie", "query"}[k%3]
+				pathParams = append(pathParams, g.Parameter(in, fmt.Sprintf("pl%s%d", in[:1], k)))
+			}
+		}
 		if pathLevel && len(pathParams) > 0 {
 			item["parameters"] = pathParams
 		}
